@@ -45,6 +45,7 @@ type Exec struct {
 	entryEpoch    int
 	arrSorts      map[string]Sort
 	mapKeySort    map[string]Sort
+	mapPtrValued  map[string]bool
 	declaredConst map[string]bool
 	declaredFun   map[string]bool
 	lastRef       string
@@ -116,6 +117,7 @@ type loopInfo struct {
 	spec  *LoopSpec
 	phiHavoc map[*ssa.Phi]Val
 	entryMemForOld *MemState
+	frameBase string
 }
 type iterInfo struct {
 	isMap   bool
@@ -135,7 +137,7 @@ func newExec(P *Program, S *Specs, prop, mode string) *Exec {
 }
 
 func newExec0(P *Program, S *Specs, prop, mode string) *Exec {
-	return &Exec{P: P, S: S, D: newDecls(), Prop: prop, Mode: mode, notes: map[string]bool{}, arrSorts: map[string]Sort{}, mapKeySort: map[string]Sort{},
+	return &Exec{P: P, S: S, D: newDecls(), Prop: prop, Mode: mode, notes: map[string]bool{}, arrSorts: map[string]Sort{}, mapKeySort: map[string]Sort{}, mapPtrValued: map[string]bool{},
 		declaredConst: map[string]bool{}, declaredFun: map[string]bool{}, obNames: map[string]int{}, unknownCalls: map[string]int{}, usedSpecs: map[string]bool{}, closureByTerm: map[string]*closureRec{}}
 }
 
@@ -733,6 +735,9 @@ func (fr *Frame) instr(in ssa.Instruction) {
 		if ex.sweepSafe {
 			ex.oblige("safe", "nil-map-write", fmt.Sprintf("(not (= %s 0))", m.T), fr.curReach, "assignment to entry in nil map", x.Pos(), []string{"C19"})
 		}
+		if mu, ok := fr.guardedSource(x.Map, 0); ok {
+			ex.oblige("lock", "write-map", fmt.Sprintf("(= %s 2)", fr.heldTerm(mu)), fr.curReach, "guarded map written while holding the write lock", x.Pos(), []string{"C12", "C20"})
+		}
 		ex.mapUpdate(fr.curMem, mt, m.T, fr.val(x.Key).T, fr.val(x.Value).T)
 	case *ssa.Lookup:
 		fr.lookup(x)
@@ -991,6 +996,12 @@ func (fr *Frame) unop(x *ssa.UnOp) {
 		ex.declFun("bitnot", "(Int) Int")
 		fr.set(x, fmt.Sprintf("(bitnot %s)", a.T))
 	case token.MUL:
+		if fa, ok := x.X.(*ssa.FieldAddr); ok {
+			if mu, ok := fr.guardedField(fa); ok {
+				ex.oblige("lock", "read-"+fa.X.Type().Underlying().(*types.Pointer).Elem().Underlying().(*types.Struct).Field(fa.Field).Name(),
+					fmt.Sprintf("(>= %s 1)", fr.heldTerm(mu)), fr.curReach, "guarded field accessed while holding its lock", x.Pos(), []string{"C12", "C20"})
+			}
+		}
 		fr.nilCheck(a, x.X, x.Pos(), "load")
 		et := x.X.Type().Underlying().(*types.Pointer).Elem()
 		m := fr.curMem
